@@ -135,6 +135,10 @@ CHECKS = {
         "assumptions": ["generated files up to 20000 bytes, the enumerated big files 64 KiB .. 1 MiB; bodies without unbounded greedy loops (cost of the VM is quadratic in the run length); local filesystem"],
     },
     "C07": {
+        # the in-memory run of a case is bounded by the step limit and returns; a file
+        # run of the same bytes that deterministically exhausts 60 CPU-seconds alone
+        # does not agree with it
+        "hang_is_violation": True,
         "parts": [
             {"test": "TestC07Reader", "quick": 4000, "thorough": 10000, "shards": 16, "quick_shards": 2},
             {"test": "TestC07Files", "quick": 700, "thorough": 1500, "shards": 16, "quick_shards": 2},
